@@ -478,6 +478,21 @@ pub const QUERY_DOCS: [&str; 3] = [
     "<r/>",
 ];
 
+pub const FUNC_DOCS: [&str; 2] = [
+    "<r xml:lang='\u{65e5}\u{672c}\u{8a9e}' lang='e\u{20ac}'><a lang='\u{e9}' x='\u{1d4b3}'>\u{e9}\u{20ac}\u{1d4b3}</a><b lang=''/><!--\u{e9}--><?p \u{e9}?></r>",
+    "<!DOCTYPE r [<!ATTLIST r i ID #IMPLIED>]><r i='k' lang='en-US'><a lang='EN'>x</a> </r>",
+];
+pub const FUNC_CALLS: [&str; 58] = [
+    "lang('en')", "lang('e')", "lang('')", "lang('\u{65e5}')", "lang('\u{e9}\u{e9}')", "lang(.)", "lang(//a)", "lang(1)",
+    "local-name()", "local-name(.)", "local-name(//@*)", "local-name(/)", "local-name(//comment())", "name()", "name(//@*)", "name(//processing-instruction())", "namespace-uri()", "namespace-uri(//@*)", "name(//namespace::*)",
+    "string()", "string(.)", "string(//@*)", "string(/)", "concat('\u{e9}', ., //@*)", "concat('', '')",
+    "starts-with(., '\u{e9}')", "starts-with('', '')", "starts-with('\u{e9}', '\u{20ac}\u{20ac}')", "contains(., '\u{20ac}')", "contains('', '')", "contains(//@lang, .)",
+    "substring-before(., '\u{20ac}')", "substring-before('\u{e9}\u{20ac}', '')", "substring-before('', '\u{e9}')", "substring-after(., '\u{20ac}')", "substring-after('\u{e9}\u{20ac}', '\u{20ac}')", "substring-after('\u{e9}', '')",
+    "substring(., 2)", "substring(., 0, 1)", "substring('\u{e9}\u{20ac}\u{1d4b3}', 1.5, 2.6)", "substring(., -1 div 0, 1 div 0)", "substring(., 0 div 0)", "string-length()", "string-length(//@x)",
+    "normalize-space()", "normalize-space('  \u{e9}  \u{20ac} ')", "translate(., '\u{e9}\u{20ac}', 'x')", "translate('\u{1d4b3}', '\u{1d4b3}', '')",
+    "boolean(.)", "not(//@*)", "number()", "number('\u{e9}')", "sum(//@*)", "sum(//a)", "floor(.)", "ceiling(//@x)", "round(-0.5)", "count(//node()) + position() + last()",
+];
+
 pub const QUERIES: [&str; 60] = [
     "//c | //a", "//a | //c", "//e | //b | //a", "(//d | //a)[1]", "//b/* | //b", "//@y | //@x", "//a | //a", "/r/* | /r/b/*",
     "//d/preceding::* | //e", "//e/ancestor::* | //a", "//c/.. | //a/..", "//*/.. | //b/c",
@@ -931,10 +946,22 @@ pub fn xpath_grid(rest: &[&str]) -> Vec<Args> {
                 out.push(mk(&[("query", q)]));
             }
         }
-        ["query", _] => {
+        ["query", kind] => {
             for d in QUERY_DOCS {
                 for q in QUERIES {
                     out.push(mk(&[("doc", d), ("query", q)]));
+                }
+            }
+            if *kind == "no_panic" {
+                // the core function library over empty, multi-byte and mismatched arguments, with every kind of context node
+                for d in FUNC_DOCS {
+                    for f in FUNC_CALLS {
+                        out.push(mk(&[("doc", d), ("query", f)]));
+                        let inner = format!("//*[{}]", f);
+                        out.push(mk(&[("doc", d), ("query", inner.as_str())]));
+                        let on_attr = format!("//@*[{}]", f);
+                        out.push(mk(&[("doc", d), ("query", on_attr.as_str())]));
+                    }
                 }
             }
         }
